@@ -12,6 +12,8 @@
    definitions (C14_kernel_backends_agree below). *)
 From Strcase Require Import Base Utf8 Spec Kernels Impl Impl5 Impl6 Impl7 Instances X86 X86NonASCII X86IndexByte X86Count X86Countv3.
 From StrcaseGen Require Import AsmProg.
+From StrcaseGen Require Consts Oracle.
+From Strcase Require SrcConsts.
 
 Theorem C14_count_variants_equal : forall s c, wf s -> 0 <= c < 256 ->
   count_generic s c = count_simd s c.
@@ -77,12 +79,13 @@ Print Assumptions C14_kernel_backends_agree.
    cut-over heuristic of the byte scans, the brute-force / Rabin-Karp thresholds) return the same result under
    every setting of these parameters, because each setting refines the same Spec (Instances.v) ---- *)
 Theorem C14_search_models_configuration_free :
-  forall (p : Impl.pkg) (n1 n2 : bool) (cut1 cut2 : Z -> Z) (mb1 mb2 ml1 ml2 prime1 prime2 : Z) (s t : bytes) (r c : Z),
+  forall (p : Impl.pkg) (n1 n2 : bool) (cut1 cut2 : Z -> Z) (mb1 mb2 ml1 ml2 prime1 prime2 nm1 nm2 rt1 rt2 : Z) (s t : bytes) (r c : Z),
+  nm1 <= rt1 -> nm2 <= rt2 ->
   wf s -> wf t -> 0 <= c < 256 ->
   Impl6.Index n1 cut1 FoldFacts121a.fold121 (FoldFacts121a.lower_pkg p) FoldFacts121.fold_map121 FoldFacts121.fold_map_excl121
-              FoldFacts121.upper_lower121 mb1 ml1 prime1 p s t
+              FoldFacts121.upper_lower121 mb1 ml1 prime1 nm1 rt1 p s t
   = Impl6.Index n2 cut2 FoldFacts121a.fold121 (FoldFacts121a.lower_pkg p) FoldFacts121.fold_map121 FoldFacts121.fold_map_excl121
-              FoldFacts121.upper_lower121 mb2 ml2 prime2 p s t /\
+              FoldFacts121.upper_lower121 mb2 ml2 prime2 nm2 rt2 p s t /\
   Impl5.IndexRune n1 cut1 FoldFacts121.fold_map121 FoldFacts121.upper_lower121 s r
   = Impl5.IndexRune n2 cut2 FoldFacts121.fold_map121 FoldFacts121.upper_lower121 s r /\
   Impl5.IndexByte n1 cut1 s c = Impl5.IndexByte n2 cut2 s c /\
@@ -91,8 +94,33 @@ Theorem C14_search_models_configuration_free :
   Impl7.LastIndexAny n1 cut1 FoldFacts121.fold_map121 FoldFacts121.upper_lower121 s t
   = Impl7.LastIndexAny n2 cut2 FoldFacts121.fold_map121 FoldFacts121.upper_lower121 s t.
 Proof.
-  intros p n1 n2 cut1 cut2 mb1 mb2 ml1 ml2 prime1 prime2 s t r c Hs Ht Hc.
+  intros p n1 n2 cut1 cut2 mb1 mb2 ml1 ml2 prime1 prime2 nm1 nm2 rt1 rt2 s t r c H1 H2 Hs Ht Hc.
   rewrite !index_refines121, !indexrune_refines121, !indexbyte_refines121, !indexany_refines121, !lastindexany_refines121 by assumption.
   repeat split; reflexivity.
 Qed.
 Print Assumptions C14_search_models_configuration_free.
+
+(* ---- the one call that leaves the library for code with a CPU-dependent contract: Index hands non-letter needles
+   of at most nativeMax bytes to the runtime's internal/bytealg.Index, which "requires 2 <= len(b) <= MaxLen" and
+   on amd64 without AVX2 (MaxLen = 31) executes AVX2 instructions for anything longer.  In the model a call outside
+   the contract is a crash (Impl4.native_index), so the refinement above needs nativeMax <= MaxLen; here it is, at
+   the bound the source has now (gen/Consts.v: read from strcase.go and bytcase/bytcase.go on every run) and the
+   least value the toolchain ever gives MaxLen (gen/Oracle.v: read from $GOROOT/src/internal/bytealg) ---- *)
+Theorem C14_native_needles_within_runtime_contract : forall p : Impl.pkg,
+  SrcConsts.src_nativeMax p <= StrcaseGen.Oracle.rt_maxlen_min.
+Proof. exact SrcConsts.native_contract_src. Qed.
+Print Assumptions C14_native_needles_within_runtime_contract.
+
+(* ... so Index with exactly the constants of the source, under any back end and cut-over, on any CPU the toolchain
+   supports, is the configuration-free Spec (this is the instance coq/extract/Extract.v runs against the code) *)
+Theorem C14_index_at_the_source_constants : forall (p : Impl.pkg) (native : bool) (cutover : Z -> Z) (rtMaxLen : Z) (s t : bytes),
+  StrcaseGen.Oracle.rt_maxlen_min <= rtMaxLen -> wf s -> wf t ->
+  Impl6.Index native cutover FoldFacts121a.fold121 (FoldFacts121a.lower_pkg p) FoldFacts121.fold_map121 FoldFacts121.fold_map_excl121
+              FoldFacts121.upper_lower121 (SrcConsts.src_maxBruteForce p) (SrcConsts.src_maxLen p) (SrcConsts.src_primeRK p)
+              (SrcConsts.src_nativeMax p) rtMaxLen p s t
+  = Ok (index FoldFacts121a.fold121 s t).
+Proof.
+  intros p native cutover rtMaxLen s t Hrt Hs Ht. apply index_refines121; try assumption.
+  apply SrcConsts.native_contract_src_le. exact Hrt.
+Qed.
+Print Assumptions C14_index_at_the_source_constants.
